@@ -26,6 +26,7 @@ BUDGET = {
 
 NAME_SETS = [('hma', 'hmb', 'hmc'), ('hm', 'hmb', 'hm1'), ('hm', 'hm_b', 'hm_'), ('m1', 'm1b', 'm10'), ('hmaa', 'hmb', 'hma'), ('hmb1', 'hmb', 'hmb10')]
 REJECTED_MAIN = "def zz_bad(a_z: int) -> int:\n\tv_z: list[int] = [a_z]\n\td_z: dict[str, int] = {'k': a_z}\n\treturn v_z.nope_z() + undefined_z\n"  # UnresolvedSymbol inside transpile, after templates were rendered
+REJECTED_AT_LOAD = "def zz_bad(a_z: UndefinedType_z) -> int:\n\treturn 1\n"
 OPS = ['rejected_main', 'load', 'transpile', 'transpile', 'transpile', 'unload', 'main', 'main', 'type_of_all', 'query', 'raw_unload_dep']
 
 
@@ -200,7 +201,9 @@ def judge(scratch: str, case: dict, hashseeds: tuple = ('0',)) -> tuple[list[tup
 								loaded.discard(x)
 				elif kind == 'rejected_main':
 					# an interactive submission the transpiler rejects half-way: the session must go on as if it had not happened
-					a.source_provider.source_code = REJECTED_MAIN
+					# v selects where the submission fails: inside transpile (after templates were rendered) or already while loading
+					# (a parameter annotated with an undefined type fails in the preprocessors, after the entrypoint was registered)
+					a.source_provider.source_code = REJECTED_MAIN if v != 1 else REJECTED_AT_LOAD
 					a.modules.unload('__main__')
 					try:
 						a.transpiler.transpile(a.modules.load('__main__').entrypoint)
@@ -251,7 +254,7 @@ def judge(scratch: str, case: dict, hashseeds: tuple = ('0',)) -> tuple[list[tup
 
 
 def shard(ctx: core.Ctx) -> None:
-	exclude = core.frontend_exclusions() | frozenset(ctx.excluded)
+	exclude = core.frontend_exclusions() | frozenset(ctx.excluded) | frozenset({'optional'})  # Optional values are typed but not transpiled (no None on the C++ side)
 	counter = [0]
 
 	def body(case: dict) -> None:
